@@ -7,8 +7,8 @@ Called by gen_tables.py.  What is extracted from src/plumpy/processes.py:
   hands to `_schedule_rpc`, or of the first method of `self` it calls);
 * `rpcUnknownIntentRaises`: the exception class raised after the chain of `message_receive`;
 * `statusInfoKeys`: the keys `get_status_info` writes;
-* `stateChangedSubject`: the pieces of the f-string assigned to `subject` in `on_entered`
-  (`<from>` stands for `from_label`, `<to>` for `self.state.value`);
+* `stateChangedSubject`: the pieces of the f-string that builds the `state_changed…` subject in `on_entered`
+  (`<from>` stands for the label of the state left, `<to>` for `self.state.value`);
 * `broadcastSubjectFilter`: the regular expression given to the `BroadcastFilter` in `Process.init`;
 * `subscriberIdentifier`: the expression passed as `identifier=` when subscribing.
 """
@@ -84,16 +84,22 @@ def status_keys(fn):
 
 
 def subject_parts(fn):
+    """pieces of the f-string that builds the `state_changed…` subject (whatever the variable is called)"""
     for node in ast.walk(fn):
-        if isinstance(node, ast.Assign) and any(isinstance(t, ast.Name) and t.id == 'subject' for t in node.targets) \
-                and isinstance(node.value, ast.JoinedStr):
+        if isinstance(node, ast.JoinedStr) and node.values and isinstance(node.values[0], ast.Constant) \
+                and str(node.values[0].value).startswith('state_changed'):
             parts = []
-            for v in node.value.values:
+            for v in node.values:
                 if isinstance(v, ast.Constant):
                     parts.append(str(v.value))
                 else:
                     src = ast.unparse(v.value)
-                    parts.append({'from_label': '<from>', 'self.state.value': '<to>'}.get(src, '<' + src + '>'))
+                    if 'from' in src:
+                        parts.append('<from>')
+                    elif src in ('self.state.value', 'self._state.LABEL.value', 'state_label.value', 'to_label'):
+                        parts.append('<to>')
+                    else:
+                        parts.append('<' + src + '>')
             return parts
     return []
 
